@@ -552,6 +552,13 @@ def gen_c18(g, run_seed, tier, opts):
         elif u < cfg["repeat_p"] + 0.08:
             act = g.choice([["draw", "randn", 2], ["reseed", g.randrange(2**32)]])
             G.add({"op": "user", "act": act, "slot": "s0"})
+        elif u < cfg["repeat_p"] + 0.08 + 0.03:
+            made = [s for s in G.steps if s["op"] == "make" and s["slot"] in G.slots]
+            if made:  # a second operator built from the very same recipe (equal value, other object)
+                src = g.choice(made)
+                slot = G.new_slot()
+                G.add({"op": "make", "slot": slot, "recipe": src["recipe"]})
+                G.slots[slot] = dict(G.slots[src["slot"]])
         elif u < cfg["repeat_p"] + 0.08 + 0.12:
             G.make_leaf()
         elif u < cfg["repeat_p"] + 0.08 + 0.12 + 0.25:
